@@ -8,6 +8,8 @@ META_EXCLUDE.add('node_call_id')
 META_EXCLUDE.add('node_sock')
 META_EXCLUDE.add('node_without_result')
 META_EXCLUDE.add('success_channels')
+for _k in ('cause', 'effects', 'complete_channels'):
+    META_EXCLUDE.add(_k)
 
 
 def load_event(s):
